@@ -287,7 +287,23 @@ def merge(a, b):
 
 # ------------------------------------------------------------------ Coq terms
 
+SHARED = {}      # frequent strings (field, class and enum names) are defined once in the prelude of a cases file
+
+
+def set_shared(words):
+    SHARED.clear()
+    for w in sorted(set(words)):
+        if len(w) >= 3 and all(32 <= ord(c) < 127 for c in w):
+            SHARED[w] = "s%d" % len(SHARED)
+
+
+def shared_prelude():
+    return "\n".join('Definition %s : string := "%s".' % (i, w.replace('"', '""')) for w, i in SHARED.items())
+
+
 def cstr(s):
+    if s in SHARED:
+        return SHARED[s]
     return '"' + s.replace('"', '""') + '"'
 
 
@@ -538,7 +554,13 @@ def claim_for(ap, fam, path, tag, dom, v):
     return None
 
 
+FULL_IN_QUICK = ["DailySettings", "BaseHourlySettings"]    # the other trees share almost every field with these
+
+
 def gen_single(ap, run):
+    """thorough: the full cross product.  quick: every leaf x every alternative x every developer_mode value on the
+    daily and the base hourly tree, every leaf x a seeded third of the alternatives on the other four trees, one
+    (key variant, constructor) per case in rotation, plus all variants x constructors for one changing value per leaf"""
     cases = []
     thorough = not run.quick()
     counter = run.rng.randrange(1000)
@@ -550,13 +572,19 @@ def gen_single(ap, run):
             opts = ap.options_of(fam, path)
             al = alts(dom, default, opts=opts, name=path[-1], thorough=thorough)
             first_change = True
-            for v, tag, why in al:
+            must = run.rng.randrange(len(al))
+            for ai, (v, tag, why) in enumerate(al):
+                if not thorough and fam not in FULL_IN_QUICK and ai != must and run.rng.random() > 0.34 \
+                        and not (first_change and tag in ("valid", "coerce", "cross") and not peq(canon(v), canon(default))):
+                    continue
                 for dm in dms:
                     if path == ["developer_mode"] and dm != "absent":
                         continue
+                    if not thorough and tag == "invalid" and dm is False:
+                        continue
                     combos = [(VARIANTS[counter % 4], ctors[(counter // 4) % len(ctors)])]
                     changes = tag in ("valid", "coerce", "cross") and not peq(canon(v), canon(default))
-                    if thorough or (first_change and changes):
+                    if thorough or (first_change and changes and dm != False):
                         combos = list(itertools.product(VARIANTS, ctors))
                     counter += 1
                     for variant, ctor in combos:
@@ -674,7 +702,27 @@ def gen_multi(ap, run):
             for ctor in FAMILY_CTORS[fam]:
                 cases.append({"stream": "multi", "ctor": ctor, "input": {"kind": "dict", "doc": t},
                               "meta": {"family": fam, "dm": "absent", "input_kind": "dict", "claim": None}})
-    n = run.n(1500, 40000)
+    # ways around the lock: a changed developer leaf together with every other spelling of "not developer mode"
+    dodges = [{"silent_developer_mode": True}, {"developer_mode": False, "silent_developer_mode": True},
+              {"developer_mode": "false"}, {"developer_mode": 0}, {"Developer_Mode ": " No "}, {"developer_mode": None},
+              {"silent_developer_mode": "yes", "developer_mode": "off"}]
+    for fam in LOCKED:
+        for r in ap.rows[fam]:
+            if not r["locked"]:
+                continue
+            if run.quick() and fam != "DailySettings" and rng.random() > 0.34:
+                continue
+            default = jsonable(r["default"])
+            ch = [a for a in alts(r["domain"], default, opts=ap.options_of(fam, r["path"]))
+                  if a[1] == "valid" and not peq(canon(a[0]), canon(default))]
+            if not ch:
+                continue
+            v = rng.choice(ch)[0]
+            for dg in dodges:
+                ctor = rng.choice(FAMILY_CTORS[fam])
+                cases.append({"stream": "multi", "ctor": ctor, "input": {"kind": "dict", "doc": merge(dg, nest(r["path"], v))},
+                              "meta": {"family": fam, "dm": "dodge", "input_kind": "dict", "claim": None, "path": r["path"]}})
+    n = run.n(600, 20000)
     fams = ts.TOP_CLASSES
     for _ in range(n):
         fam = rng.choice(fams)
@@ -930,13 +978,13 @@ def process(run, impl, ap, cases, defaults):
                         "dump_minus_defaults": jsonable(pdiff(obs["dump"], defaults[obs["cls"]]))}, limit=5)
     for st, lst in by_stream.items():
         fn, ty = ("check_stored reg", STORED_T) if st == "stored" else ("check_case reg", CASE_T)
-        bad = run.coq_cases(st, IMPORTS, "", [t for t, _ in lst], fn, shard=400, case_type=ty)
+        bad = run.coq_cases(st, IMPORTS, shared_prelude(), [t for t, _ in lst], fn, shard=400, case_type=ty)
         if bad is None:
             run.proof_ok = False
             continue
         for i in bad[:8]:
             _, case = lst[i]
-            shown = run.coq_eval(IMPORTS, "", "show reg %s %s" % (cctor(case["ctor"]), cinput(case["input"])))
+            shown = run.coq_eval(IMPORTS, shared_prelude(), "show reg %s %s" % (cctor(case["ctor"]), cinput(case["input"])))
             run.corr_failures.append({"stream": st, "case": jsonable({k: case[k] for k in ("ctor", "input", "meta")}),
                                       "impl": jsonable(case["obs"]), "model": shown[-1500:]})
             run.log("disagreement [%s] %s %s\n   impl: %s\n   model: %s" % (
@@ -947,14 +995,14 @@ def process(run, impl, ap, cases, defaults):
 
 def check_default_dumps(run, defaults):
     terms = ["(%s, %s)" % (cstr(c), cjv(jsonable_keep(d))) for c, d in defaults.items()]
-    bad = run.coq_cases("default_dumps", IMPORTS, "", terms, "check_default reg", shard=50, case_type="(string * jv)%type")
+    bad = run.coq_cases("default_dumps", IMPORTS, shared_prelude(), terms, "check_default reg", shard=50, case_type="(string * jv)%type")
     if bad is None:
         run.proof_ok = False
         return
     names = list(defaults)
     for i in bad:
         run.corr_failures.append({"stream": "default_dumps", "case": {"class": names[i]}, "impl": jsonable(defaults[names[i]]),
-                                  "model": run.coq_eval(IMPORTS, "", "show reg (CClass %s) InNone" % cstr(names[i]))[-1500:]})
+                                  "model": run.coq_eval(IMPORTS, shared_prelude(), "show reg (CClass %s) InNone" % cstr(names[i]))[-1500:]})
 
 
 def jsonable_keep(v):
@@ -994,6 +1042,13 @@ def main():
         run.proof_log += "translator failed: %s: %s" % (type(e).__name__, e)
         run.log("TRANSLATOR FAILED: %s: %s" % (type(e).__name__, e))
     ap = Approved(ts.load_approved())
+    words = list(ts.TOP_CLASSES) + NESTED_CLASSES
+    for rows in ap.rows.values():
+        for r in rows:
+            words += r["path"] + list(r["domain"].get("vals", []))
+            words += [x for x in ([r["default"]] if isinstance(r["default"], str) else
+                                  r["default"] if isinstance(r["default"], list) else []) if isinstance(x, str)]
+    set_shared(words + ["developer_mode", "silent_developer_mode", "current", "legacy"])
     if info is not None:
         run.check_proofs("Properties/C14.v", ["Proofs/SettingsProofs.v", "Proofs/SettingsGenProofs.v"], generated=["Generated/SettingsGen.v"])
         run.ensure_models(["Model/SettingsRun.v", "Model/CasesLib.v", "Generated/SettingsGen.v"])
